@@ -180,7 +180,16 @@ def gen_case(rng):
         ok_range = lo < hi and hi - lo + 1 <= 2 ** 24
         ok_par = np.isfinite(mean) and scale > 0 and np.isfinite(scale)
         cname = "valid" if ok_range and ok_par else ("invalid-range" if not ok_range else "invalid-parameter")
-        how = rng.randrange(3)
+        how = rng.randrange(4)
+        if how == 3:
+            # scale fixed at construction (keyword), locations per symbol
+            kw = {"QuantizedGaussian": "std", "QuantizedLaplace": "scale", "QuantizedCauchy": "scale"}[cls.__name__]
+            k = rng.randrange(1, 4)
+            means = [mean] + [rng.uniform(-5, 5) for _ in range(k - 1)]
+            rng.shuffle(means)
+            dt = pick(rng, [np.float64, np.float32])
+            return ("%s(%d,%d,%s=%r) with locations %r %s" % (cls.__name__, lo, hi, kw, scale, means, dt.__name__), (lambda: cls(lo, hi, **{kw: scale})),
+                    (lambda n: (arr(means, dt),), k), lo, hi, cname)
         if how == 0:
             return "%s(%d,%d,%r,%r)" % (cls.__name__, lo, hi, mean, scale), (lambda: cls(lo, hi, mean, scale)), None, lo, hi, cname
         k = rng.randrange(1, 4)
